@@ -28,4 +28,4 @@ def jobs(tier):
     return J
 
 
-META = {'functions': [], 'undecided_part': '', 'trusted_base': ['models/alloc.h', 'mem_protect / memcpy window model in harness/c17_code.c']}
+META = {'functions': ['VARR expand/tailor/push/push_arr/create/destroy', '_MIR_set_code', '_MIR_update_code_arr', '_MIR_change_code', 'add_code'], 'undecided_part': '', 'trusted_base': ['models/alloc.h', 'mem_protect / memcpy window model in harness/c17_code.c']}
